@@ -147,6 +147,14 @@ pub fn legal_on_clone(b: &Board) -> Vec<Ply> {
     c.get_legal_moves()
 }
 
+/// The list a SECOND call on the same board object returns (the first call's own probing of
+/// candidate moves must not have disturbed it).
+pub fn legal_second_call(b: &Board) -> Vec<Ply> {
+    let mut c = b.clone();
+    let _ = c.get_legal_moves();
+    c.get_legal_moves()
+}
+
 pub fn color(white: bool) -> Color {
     if white {
         Color::White
